@@ -73,7 +73,7 @@ func (a *v4Adapter) start(conn *netsim.Conn, timeout time.Duration, tries int, l
 	a.c, a.conn = c, conn
 	return err
 }
-func (a *v4Adapter) close() error   { return a.c.Close() }
+func (a *v4Adapter) close() error { return a.c.Close() }
 func (a *v4Adapter) dest() net.Addr {
 	switch a.destSel % 4 {
 	case 1:
@@ -211,7 +211,7 @@ func (a *v6Adapter) start(conn *netsim.Conn, timeout time.Duration, tries int, l
 	a.c, a.conn = c, conn
 	return err
 }
-func (a *v6Adapter) close() error   { return a.c.Close() }
+func (a *v6Adapter) close() error { return a.c.Close() }
 func (a *v6Adapter) dest() net.Addr {
 	switch a.destSel % 4 {
 	case 1:
